@@ -332,6 +332,17 @@ fn compile(
     let sparse_table: SparseScriptTable = {
         SparseScriptTable::from_fields(meta).map_err(|e| ctx.emitter.emit(e))?
     };
+    {
+        // Script offsets in the file are 32-bit, so a table that alone is 4 GiB large can never be written.
+        // (check this before building the table in memory; `table_len: 4000000000` must not exhaust it)
+        let entry_size: u64 = if format.table_has_flags() { 8 } else { 4 };
+        if 4 + sparse_table.table_len.value as u64 * entry_size > u32::MAX as u64 {
+            return Err(ctx.emitter.emit(error!(
+                message("script table is too large"),
+                primary(sparse_table.table_len, "a table with {} entries does not fit in a MSG file", sparse_table.table_len.value),
+            )));
+        }
+    }
     let dense_table = sparse_table.densify();
     let script_table_indices_by_name = get_script_table_indices_by_name(&dense_table);
 
